@@ -13,6 +13,7 @@
       same_spectrum / same_visible   equal shape, labels, folded flag, mask and data (data where unmasked) *)
 From Coq Require Import String.
 From Coq Require Import ZArith Reals List Bool Arith Lia Lra Permutation.
+From Dadi Require Model.PopOpsCheck.
 From Dadi Require Import Base.Num Base.NumR Model.PopOps Proofs.PopOpsIdx Proofs.PopOpsProofs Proofs.PopOpsReorder
   Proofs.PopOpsCommute Proofs.PopOpsFoldCommute Proofs.PopOpsCombine Proofs.PopOpsScramble
   Proofs.PopOpsProjCommute Proofs.PopOpsFoldMarg Proofs.PopOpsFoldCombine Proofs.PopOpsFoldScramble.
@@ -308,3 +309,13 @@ Theorem C10_scramble_poison_is_corners : forall (g : spec R) c,
   fo g = false -> corner_masked g -> inr (sh g) c ->
   scramble_poison g c = true -> is_corner (sh g) c = true.
 Proof. exact scramble_poison_is_corners. Qed.
+
+(** *** large sample sizes: the correspondence files of the large cases evaluate the model's re-dealing weights through rows of
+    Pascal's triangle ([binomZ] is the literal Pascal recursion, exponential in time) and list the totals of the masked entries
+    once (Model/PopOpsCheck.v).  The binomials are the same for ALL n, k, and for EVERY case the fast check returns exactly
+    what the check on the model returns: a verdict of pcheck_full_fast is a verdict of the model. *)
+Theorem C10_fast_binomials_are_the_binomials : forall n k, PopOpsCheck.binomZ_fast n k = binomZ n k.
+Proof. exact binomZ_fast_correct. Qed.
+Theorem C10_fast_check_is_the_check : forall tol c, PopOpsCheck.pcheck_full_fast tol c = PopOpsCheck.pcheck_full tol c.
+Proof. exact pcheck_full_fast_correct. Qed.
+Print Assumptions C10_fast_check_is_the_check.
